@@ -915,6 +915,13 @@ func stateFoundArrayEnd(s *Scanner) state {
 // such as after reading `{}` or `[1,2,3]`.
 // Only space characters should be seen now.
 func stateEndTop(s *Scanner, c byte) state {
+	if s.hasTrailingCharacters {
+		// The previous byte both ended the top-level value and was the first byte
+		// of the text after the schema, so whatever follows isn't schema either.
+		s.found(lexeme.EndTop)
+		return scanContinue
+	}
+
 	switch {
 	case s.isNewLine(c):
 		s.found(lexeme.NewLine)
@@ -940,10 +947,6 @@ func stateEndTop(s *Scanner, c byte) state {
 		} else if s.annotation == annotationNone {
 			panic(s.newDocumentErrorAtCharacter("non-space byte after top-level value"))
 		}
-	}
-
-	if s.hasTrailingCharacters {
-		s.found(lexeme.EndTop)
 	}
 	return scanContinue
 }
